@@ -3,21 +3,24 @@ import Goloop.Model.C06
 namespace Goloop.Driver.C06
 open Goloop Goloop.C06
 
-/-- vote descriptor `s,h,r,t,kind,nid,blk,ps,ts` (kind `n` = nil vote, `b` = block vote) -/
+/-- vote descriptor `s,h,r,t,kind,nid,blk,ps,ts,u` (kind `n` = nil vote, `b` = block vote;
+    `u` = unsigned part: 0 none, k>0 one NTS vote base with section hash k; a block vote with
+    u>0 states NTS vote count 1 in its signed app data) -/
 def parseVote (s : String) : Option Vote :=
   match s.splitOn "," with
-  | [sg, h, r, t, k, nid, blk, ps, ts] =>
-    match sg.toNat?, h.toInt?, r.toInt?, t.toNat?, nid.toNat?, blk.toNat?, ps.toNat?, ts.toInt? with
-    | some sg, some h, some r, some t, some nid, some blk, some ps, some ts =>
+  | [sg, h, r, t, k, nid, blk, ps, ts, u] =>
+    match sg.toNat?, h.toInt?, r.toInt?, t.toNat?, nid.toNat?, blk.toNat?, ps.toNat?, ts.toInt?, u.toNat? with
+    | some sg, some h, some r, some t, some nid, some blk, some ps, some ts, some u =>
       if k == "n" then
         -- a nil vote signs only (h, r, t, BlockID = nid, ts): block / part set are absent
         if blk == 0 && ps == 0 then
-          some { signer := sg, c := { h := h, r := r, t := t, isNil := true, nid := nid, blk := 0, ps := 0, ts := ts } }
+          some { signer := sg, u := u, c := { h := h, r := r, t := t, isNil := true, nid := nid, blk := 0, ps := 0, ts := ts } }
         else none
       else if k == "b" then
-        some { signer := sg, c := { h := h, r := r, t := t, isNil := false, nid := nid, blk := blk, ps := ps, ts := ts } }
+        some { signer := sg, u := u, c := { h := h, r := r, t := t, isNil := false, nid := nid, blk := blk, ps := ps, ts := ts,
+                                             ntsCnt := if u > 0 then 1 else 0 } }
       else none
-    | _, _, _, _, _, _, _, _ => none
+    | _, _, _, _, _, _, _, _, _ => none
   | _ => none
 
 /-- proposal descriptor `s,h,r,nid,ps,pol` -/
@@ -36,7 +39,7 @@ def parseDS (kind s : String) : Option DS :=
   else none
 
 def showDS : DS → String
-  | DS.vote v => s!"v {v.signer},{v.c.h},{v.c.r},{v.c.t},{if v.c.isNil then "n" else "b"},{v.c.nid},{v.c.blk},{v.c.ps},{v.c.ts}"
+  | DS.vote v => s!"v {v.signer},{v.c.h},{v.c.r},{v.c.t},{if v.c.isNil then "n" else "b"},{v.c.nid},{v.c.blk},{v.c.ps},{v.c.ts},{v.u}"
   | DS.prop p => s!"p {p.signer},{p.c.h},{p.c.r},{p.c.nid},{p.c.ps},{p.c.pol}"
 
 def b01 (b : Bool) : String := if b then "1" else "0"
